@@ -344,7 +344,7 @@ def clone_state(st):
 
 def state_key(st, imported):
     return (tuple(b.name for b in st.use_stack), tuple(sorted(st.name_to_backend)), tuple(sorted((m, tuple(n for n, _ in l)) for m, l in st.uninitialized_backends.items() if m.startswith("fw_"))),
-            tuple(sorted((tuple(f"{t.__module__}.{t.__name__}" for t in k), v.name) for k, v in st.tensortypes_to_backend.items())), tuple(sorted(m for m in st.seen_module_names if m.startswith("fw_"))),
+            tuple(sorted((tuple(f"{getattr(t, '__module__', '')}.{getattr(t, '__name__', t)}" for t in (k if isinstance(k, tuple) else (k,))), v.name) for k, v in st.tensortypes_to_backend.items())), tuple(sorted(m for m in st.seen_module_names if m.startswith("fw_"))),
             tuple(sorted(imported)))
 
 
